@@ -14,7 +14,7 @@ RULE = ('molecules of 1-3 residues from 6 synthetic blocks of 4-8 atoms (symmetr
         'from the reference graph. non-trivial = some atom re-added and some atom flagged, or a scrambled complete '
         'residue; distinct by input')
 ASSUMPTIONS = ['the reference block handed to repair_residue (after _get_reference_residue / _patch_modification) is taken from the '
-               'implementation: patching of the reference is exercised but not modelled',
+               'implementation; it is compared with a recomputation from the force field (block of the mutation / residue name plus the extra atoms of the requested modifications bonded to their anchors): validated, not modelled in Coq',
                'the largest-common-subgraph search is judged per input by C06\'s proved checkers (valid, maximum) for residues of at most 8 atoms']
 TRUSTED = ['make_residue_graph (grouping atoms into residues)']
 
@@ -205,13 +205,40 @@ def run_impl(inp):
                      # by construction: residue atom -> block atom it was made from (a witness, judged in Coq)
                      'witness': [[a['key'], refkeys[a['ref']]] for a in inp['atoms'] if a['key'] in nd['found'].nodes and a.get('ref') in refkeys],
                      '_refkeys': refkeys, '_residx': residx})
+    # the reference a residue is compared with, recomputed from the force field by the documented rule: the block named
+    # by the mutation (else by the residue name), plus the extra atoms of every requested modification bonded to their
+    # anchors (by atom name)
+    ref_problem = None
+    for j in jobs:
+        nd = reference_graph.nodes[j['_residx']]
+        ref = nd['reference']
+        name = nd['mutation'][0] if nd.get('mutation') else nd['resname']
+        blk = ff.blocks[name]
+        want_nodes = {blk.nodes[k]['atomname']: False for k in blk.nodes}
+        want_edges = {frozenset((blk.nodes[u]['atomname'], blk.nodes[v]['atomname'])) for u, v in blk.edges}
+        for modname in nd.get('modification', []) or []:
+            if modname == 'none':
+                continue
+            mod = ff.modifications[modname]
+            for k in mod.nodes:
+                if mod.nodes[k].get('PTM_atom'):
+                    want_nodes[mod.nodes[k]['atomname']] = True
+            for u, v in mod.edges:
+                if mod.nodes[u].get('PTM_atom') or mod.nodes[v].get('PTM_atom'):
+                    want_edges.add(frozenset((mod.nodes[u]['atomname'], mod.nodes[v]['atomname'])))
+        got_nodes = {ref.nodes[k]['atomname']: bool(ref.nodes[k].get('PTM_atom', False)) for k in ref.nodes}
+        got_edges = {frozenset((ref.nodes[u]['atomname'], ref.nodes[v]['atomname'])) for u, v in ref.edges}
+        if len(got_nodes) != len(ref.nodes) or got_nodes != want_nodes or got_edges != want_edges:
+            ref_problem = ref_problem or ('reference of residue %s (mutation %r, modification %r): atoms %r bonds %r, expected atoms %r bonds %r' % (
+                name, nd.get('mutation'), nd.get('modification'), sorted(got_nodes.items()), sorted(map(sorted, got_edges)),
+                sorted(want_nodes.items()), sorted(map(sorted, want_edges))))
     rg.repair_graph(mol, reference_graph)
     for j in jobs:
         nd = reference_graph.nodes[j.pop('_residx')]
         rk = j.pop('_refkeys')
         j['final'] = [[rk[r], m] for r, m in nd['match'].items()]
     out_atoms = [[k, code(mol.nodes[k].get('atomname')), EL[mol.nodes[k]['element']], bool(mol.nodes[k].get('PTM_atom', False))] for k in mol.nodes]
-    return {'atoms0': atoms0, 'jobs': jobs, 'atoms': out_atoms, 'edges': [list(e) for e in mol.edges]}
+    return {'atoms0': atoms0, 'jobs': jobs, 'atoms': out_atoms, 'edges': [list(e) for e in mol.edges], 'ref_problem': ref_problem}
 
 
 # ---------------------------------------------------------------- emission
@@ -238,6 +265,10 @@ def emit(inp, out):
         zlit(a[0]), zlit(a[1]), zlit(a[2]), blit(a[3])))
     iatoms = listlit(out['atoms'], lambda a: atom_lit(a, a[3]))
     return 'CRepair [%s] %s %s %s %s' % ('; '.join(jobs), atoms0, pairs_lit(inp['bonds']), iatoms, pairs_lit(out['edges']))
+
+
+def py_prop(inp, out):
+    return out.get('ref_problem')
 
 
 def nontrivial(inp, out):
